@@ -39,6 +39,16 @@ def run_manifest(tid, vendor, sizes, bound, ncvrs, rng, permute):
         df = pd.DataFrame({"Container": [f"box{k}" for k in range(nb)], "Tabulator": ["7"] * nb,
                            "Batch Name": [k + 1 for k in range(nb)], "Number of Ballots": list(sizes)})
         V, sizecol, tabcol, batchcol = Hart, "Number of Ballots", "Tabulator", "Batch Name"
+    # the frame's row labels are whatever the caller's tooling left (default, 1-based, rows kept from a larger file);
+    # it may carry a running-total column from an earlier preparation of its parts
+    shape = rng.randrange(4)
+    if shape == 1:
+        df.index = range(1, nb + 1)
+    elif shape == 2:
+        df.index = [0] + list(range(2, nb + 1))
+    if rng.random() < 0.25:
+        half = nb // 2
+        df["cum_cards"] = list(np.cumsum(list(sizes[:half]))) + list(np.cumsum(list(sizes[half:])))
     try:
         with warnings.catch_warnings():
             warnings.simplefilter("ignore")
